@@ -22,7 +22,22 @@ def call_tla(c):
     return '[op |-> "%s", n |-> %d, q |-> %s]' % (c[0], c[1] if c[0] != "member" else 0, tlc.tla(list(c[1])) if c[0] == "member" else "<<>>")
 
 
+def expand(prog):
+    """The model knows count / list / member; up_to_length(n) is the sequence of of_length(0..n) fetched lazily."""
+    out = []
+    for th in prog:
+        row = []
+        for c in th:
+            if c[0] == "upto":
+                row += [("list", k) for k in range(c[1] + 1)]
+            else:
+                row.append(c)
+        out.append(row)
+    return out
+
+
 def prog_tla(prog):
+    prog = expand(prog)
     return "<< " + ", ".join("<< " + ", ".join(call_tla(c) for c in th) + " >>" for th in prog) + " >>"
 
 
@@ -41,6 +56,8 @@ def real_call(av, c):
         return av.count(c[1])
     if c[0] == "list":
         return [tuple(p) for p in av.of_length(c[1])]
+    if c[0] == "upto":
+        return [tuple(p) for p in av.up_to_length(c[1])]
     return Perm(c[1]) in av
 
 
@@ -52,9 +69,19 @@ def judge(ctx, case, prog, expected, out):
             ctx.violation(dict(case, thread=t + 1), "NoException", "results as when run alone", val)
             ok = False
             continue
+        ek = 0
         for k, c in enumerate(th):
-            e = expected[t][k]
+            e = expected[t][ek]
             got = val[k]
+            if c[0] == "upto":
+                exp = sorted(tuple(x) for j in range(c[1] + 1) for x in expected[t][ek + j]["set"])
+                ek += c[1] + 1
+                good = sorted(got) == exp and len(got) == len(exp) and [len(x) for x in got] == sorted(len(x) for x in got)
+                if not good:
+                    ctx.violation(dict(case, thread=t + 1, call=k), "ResultsAsAlone", exp, got)
+                    ok = False
+                continue
+            ek += 1
             if c[0] == "count":
                 good = got == e["n"]
                 exp = e["n"]
@@ -94,6 +121,7 @@ def scenarios(quick):
         (B, [[("count", 4)], [("list", 3), ("member", (1, 0))]]),
         (M, [[("count", 3)], [("list", 2), ("count", 3)]]),
         (C, [[("count", 2), ("count", 4)], [("count", 3), ("member", (0, 1, 2, 3))]]),
+        (A, [[("upto", 3)], [("count", 4), ("member", (0, 2, 1))]]),          # a generator fetching levels lazily while another thread extends the class
     ]
     if not quick:
         out += [
@@ -196,7 +224,7 @@ def run(ctx):
                             events.append({"ev": "Run", "b": bi, "t": 0})
                             events += [dict({"k": 0, "size": 0}, **e) for e in out["events"]]
         # behaviours of the model (TLC -simulate on C07_Behaviours) followed event by event on the real threads
-        if si < (4 if quick else len(scen)):
+        if si < (4 if quick else len(scen)) and not any(c[0] == "upto" for th in prog for c in th):
             mod = util.mc_module("MC_C07B", "C07_Behaviours", {"BasisDef": c02.tla_basis(basis), "ProgDef": prog_tla(prog)})
             kb = {"Basis": ("<-", "BasisDef"), "Prog": ("<-", "ProgDef"), "LockMode": '"as_coded"'}
             rb = tlc.run_tlc("MC_C07B", util.cfg(init="HInit", next_="HNext", invariants=INVS + ["EmitHist"], constants=kb),
